@@ -48,6 +48,7 @@ type Node struct {
 	Dir    string
 
 	mu       sync.Mutex
+	shiftMS  int64 // added to the wall clock when a block is stamped (ShiftTime)
 	Blocks   int
 	TxCount  int
 	stop     chan struct{}
@@ -168,6 +169,13 @@ func (nd *Node) Client() (*rpcclient.Internal, error) {
 	return cli, nil
 }
 
+// ShiftTime moves the clock the block timestamps are taken from forward (chain time passes without blocks).
+func (nd *Node) ShiftTime(d time.Duration) {
+	nd.mu.Lock()
+	nd.shiftMS += d.Milliseconds()
+	nd.mu.Unlock()
+}
+
 // ProduceBlock takes the verified mempool transactions into a new block.
 func (nd *Node) ProduceBlock() error {
 	nd.mu.Lock()
@@ -181,7 +189,7 @@ func (nd *Node) ProduceBlock() error {
 	if err != nil {
 		return err
 	}
-	ts := uint64(time.Now().UnixMilli())
+	ts := uint64(time.Now().UnixMilli() + nd.shiftMS)
 	if ts <= prev.Timestamp {
 		ts = prev.Timestamp + 1
 	}
